@@ -1,6 +1,7 @@
 """float -> small rational projection shared by the state projection and the independent reader, so that a
 value and the text it is printed as are mapped to the same rational (the exact double travels separately as its
 canonical text)."""
+import math
 from fractions import Fraction
 
 def snap(x, max_den=10 ** 4):
@@ -9,7 +10,9 @@ def snap(x, max_den=10 ** 4):
     if isinstance(x, bool):
         raise TypeError("bool is not a number here")
     fr = Fraction(x).limit_denominator(max_den)
-    if abs(float(fr) - float(x)) <= 1e-9 * max(1.0, abs(float(x))):
+    # "is one": within 64 units in the last place (float noise of a few operations), not a relative
+    # tolerance - at magnitude 10^5 a relative 1e-9 would swallow half a default comparison tolerance
+    if abs(float(fr) - float(x)) <= max(64 * math.ulp(float(x)), 1e-15):
         return [fr.numerator, fr.denominator]
     return None
 
